@@ -85,3 +85,80 @@ func VerifHarness_FuzzTransform() {
 	errors.VerifAssert("variant-has-the-same-outcome", o1.class == o2.class)
 	errors.VerifAssert("variant-produces-the-same-output", o1.out == o2.out)
 }
+
+// VerifHarness_FuzzLiteral (C20): the literal rewrites of the transformer on a literal whose VALUE is a solver
+// variable. The analysed tree of `println(7, 2.0 ...)` gets its int literal replaced by an unconstrained int n
+// (bounded away from overflow as the property states); the transformer runs with its random draws as fork
+// variables; original and variant trees are compiled directly (no printing: the text of a symbolic number cannot
+// be re-lexed) and run on the VM; the outputs are compared as SMT terms, i.e. identities such as
+// ((n * 4711) / 4711) == n are decided by the solver for every n in the range.
+func VerifHarness_FuzzLiteral() {
+	passes := errors.VerifParam("passes", 1)
+	n := errors.VerifNdInt64("n")
+	bound := int64(1) << uint(errors.VerifParam("bits", 31))
+	errors.VerifAssume(n >= -bound)
+	errors.VerifAssume(n <= bound)
+	an := verifAnalyze("fn main() {\n  println(7);\n  let x = 7;\n  println(x + 1);\n}\n", nil, nil, true)
+	if an.hasError {
+		errors.VerifInconclusive("literal template rejected")
+	}
+	mod := an.modules[verifFile]
+	replaced := 0
+	for fi, f := range mod.Functions {
+		if f.Ident.Ident() != "main" {
+			continue
+		}
+		if stmt, ok := f.Body.Statements[0].(ast.AnalyzedExpressionStatement); ok {
+			if call, ok := stmt.Expression.(ast.AnalyzedCallExpression); ok && len(call.Arguments.List) == 1 {
+				if lit, ok := call.Arguments.List[0].Expression.(ast.AnalyzedIntLiteralExpression); ok {
+					lit.Value = n
+					call.Arguments.List[0].Expression = lit
+					stmt.Expression = call
+					f.Body.Statements[0] = stmt
+					replaced++
+				}
+			}
+		}
+		if let, ok := f.Body.Statements[1].(ast.AnalyzedLetStatement); ok {
+			if lit, ok := let.Expression.(ast.AnalyzedIntLiteralExpression); ok {
+				lit.Value = n
+				let.Expression = lit
+				f.Body.Statements[1] = let
+				replaced++
+			}
+		}
+		mod.Functions[fi] = f
+	}
+	if replaced != 2 {
+		errors.VerifInconclusive("literals not found in the analysed template")
+	}
+	an.modules[verifFile] = mod
+	var variant ast.AnalyzedProgram
+	panicked, msg := errors.VerifPanics(func() {
+		tr := fuzzer.VerifNewTransformer(errors.VerifRandSource())
+		variants := tr.TransformPasses(mod, passes)
+		variant = variants[len(variants)-1]
+	})
+	if panicked {
+		errors.VerifTag("panic", errors.VerifNorm(msg))
+		errors.VerifTag("site", errors.VerifPanicSite())
+	}
+	errors.VerifAssert("transformer-never-crashes-on-an-accepted-program", !panicked)
+	if panicked {
+		return
+	}
+	an2 := verifAnalysis{modules: map[string]ast.AnalyzedProgram{verifFile: variant}}
+	errors.VerifTag("__ignore_panic", "C02")
+	var o1, o2 verifOutcome
+	p, _ := errors.VerifPanics(func() {
+		o1 = verifRunVM(an, nil, nil, verifLimits, newVerifCtx())
+		o2 = verifRunVM(an2, nil, nil, verifLimits, newVerifCtx())
+	})
+	if p {
+		errors.VerifReached("vm-panicked-skipped")
+		return
+	}
+	errors.VerifReached("ran")
+	errors.VerifAssert("variant-has-the-same-outcome", o1.class == o2.class)
+	errors.VerifAssert("variant-produces-the-same-output", o1.out == o2.out)
+}
